@@ -289,13 +289,47 @@ def r9_emit_total(c, facts, rule='C04.R9'):
                 if src and src[0] == 'arm' and src[1]['k'] in ('call', 'mcall') and callee_id(src[1]) in some_sets and 'Some' in pat_variants(src[2]):
                     allowed &= some_sets[callee_id(src[1])]
                     how.append('Some(..) of %s' % facts.fns[callee_id(src[1])].qname.split('::')[-1])
+
+                def value_set(x, depth=0):
+                    """variants the schema denoted by expression x can have (None = unknown)"""
+                    while x['k'] in ('addr', 'unary', 'cast') or (x['k'] == 'block' and not x['stmts'] and x['expr'] is not None):
+                        x = x['e'] if x['k'] != 'block' else x['expr']
+                    if x['k'] == 'block' and x['expr'] is not None:
+                        x = x['expr']
+                        return value_set(x, depth + 1) if depth < 6 else None
+                    if x['k'] == 'path' and x['p'].get('res') == 'local':
+                        sx = ctx.bind.get(x['p']['hid'])
+                        if sx and sx[0] in ('let', 'arm') and sx[1]['k'] in ('call', 'mcall') and callee_id(sx[1]) in some_sets:
+                            return set(some_sets[callee_id(sx[1])])
+                    return None
+                if src and src[0] == 'let' and src[1]['k'] == 'match' and 'SchemaExpr' in src[1]['scrut']['ty']:
+                    # `let target = match &s.expr { Ref(name) => <inlined by a helper>, _ => s }`
+                    union = set()
+                    known = True
+                    for vs, arm in _arm_sets(src[1], allv):
+                        if _has_panic(arm['body']) or any(y['k'] == 'ret' for y, _ in hir_walk(arm['body'])) and value_set(arm['body']) is None and arm['body']['k'] != 'block':
+                            continue
+                        vset = value_set(arm['body'])
+                        if vset is not None:
+                            union |= vset
+                        else:
+                            b_ = arm['body']
+                            while b_['k'] in ('addr', 'unary', 'cast'):
+                                b_ = b_['e']
+                            if b_['k'] == 'path' and b_['p'].get('res') == 'local' and (ctx.bind.get(b_['p']['hid']) or ('',))[0] == 'param':
+                                union |= vs          # the matched schema itself, on the arm of these variants
+                            else:
+                                known = False
+                    if known and union:
+                        allowed &= union
+                        how.append('let .. = match on the variant')
                 inst = {'callee': F_.qname, 'panics_on': sorted(pv), 'caller': g.qname, 'line': e['ln'], 'argument_variants': sorted(allowed), 'established_by': how}
                 if allowed & pv:
                     c.bad(R, '%s->%s:%s' % (g.qname.split('::')[-1], F_.qname.split('::')[-1], ','.join(sorted(allowed & pv))),
                           '%s calls %s with a schema that may be %s, for which %s panics (unreachable!): an accepted program aborts the compiler instead of producing a document' % (g.qname, F_.qname, sorted(allowed & pv), F_.qname), **inst)
                 else:
                     c.ok(R, inst)
-    c.floor(R, 'call sites of emitter functions that are partial in the SchemaExpr variant', n, 2)
+    c.floor(R, 'call sites of emitter functions that are partial in the SchemaExpr variant', n, 1)
 
 
 
